@@ -11,6 +11,7 @@ Theorem C11_feed : forall nb fuel, (1 < fuel)%nat -> forall (cs : list chunk) (t
   let '(e, k', cl) := limit_spec nb k cs in
   emitted r = e /\ snd r = Some k' /\ final_st r = (if cl then Closing else Idle (nb - k') None).
 Proof. exact limit_feed. Qed.
+Print Assumptions C11_feed.
 
 (** ... and that is exactly the first max(N - k, 0) bytes of the stream, however it is chunked;
     the counter ends at k + bytes forwarded; the stub closes in the step that forwards the N-th
@@ -21,24 +22,29 @@ Theorem C11_exact_prefix : forall nb cs k,
   k' = k + zlen e /\
   (cl = true <-> (cs <> [] /\ nb - k <= zlen (concat (map cdata cs)))).
 Proof. exact limit_spec_prefix. Qed.
+Print Assumptions C11_exact_prefix.
 
 (** a restart of the stage (reconfiguration of a neighbour, or an update of its own limit)
     re-reads the budget from the per-connection counter kept in the stub *)
 Theorem C11_restart : forall nb k now,
   init_state (TLimitData nb) (Some k) now = Idle (limit_remaining nb k) None.
 Proof. exact limit_restart. Qed.
+Print Assumptions C11_restart.
 
 Theorem C11_budget_no_wrap : forall nb k, no_wrap nb k -> limit_remaining nb k = nb - k.
 Proof. exact limit_remaining_exact. Qed.
+Print Assumptions C11_budget_no_wrap.
 
 (** the counter is per stub: no action of a link touches the toxic identities of its stubs
     (and links share no state in the model) *)
 Theorem C11_per_link : forall sigma l l', sched_run l sigma = Some l' -> idents l' = idents l.
 Proof. exact run_idents. Qed.
+Print Assumptions C11_per_link.
 
 (** finding F11 (known): at the wrap boundary N - counter turns positive and the limit is lost *)
 Theorem C11_wrap_refuted_pinned : limit_remaining min64 5 = max64 - 4.
 Proof. exact limit_wrap_witness. Qed.
+Print Assumptions C11_wrap_refuted_pinned.
 
 (** regenerated from link.go on every run: NewState() is reached only for stubs that are new (all of
     them in Start, the appended one in AddToxic); the restarts of existing stubs in AddToxic,
@@ -46,3 +52,4 @@ Proof. exact limit_wrap_witness. Qed.
     Model/Reconf.v does with [s_ps] - so the bytes already counted survive every reconfiguration *)
 Theorem C11_state_survives_restarts : state_created_only_for_new_stubs = true.
 Proof. reflexivity. Qed.
+Print Assumptions C11_state_survives_restarts.
